@@ -756,8 +756,8 @@ func transport(rc *receiver, q creq) cresp {
 		return cresp{Err: err.Error()}
 	}
 	logw := os.Stderr
-	ta := store.NewNodeTransport(raft.NewNetworkTransport(store.NewTransport(la), 1, 4*time.Second, logw), q.Compress)
-	tb := store.NewNodeTransport(raft.NewNetworkTransport(store.NewTransport(lb), 1, 4*time.Second, logw), q.Compress)
+	ta := store.NewNodeTransport(raft.NewNetworkTransport(store.NewTransport(la), 1, 8*time.Second, logw), q.Compress)
+	tb := store.NewNodeTransport(raft.NewNetworkTransport(store.NewTransport(lb), 1, 8*time.Second, logw), q.Compress)
 	defer ta.Close()
 	defer tb.Close()
 
